@@ -305,6 +305,15 @@ pub fn generate(g: &mut Gen, thorough: bool) {
             .collect();
         case(g, "default", def, "F", "geo", 5e-6, &pts, "tmerc-across-the-antimeridian", true);
     }
+    // the `inv` modifier exchanges the directions of every operator (one definition per operator, every parameter given)
+    for def in super::c09::EVERY_PARAMETER {
+        if def.contains("grids") {
+            continue;
+        }
+        for pts in [vec![[0.2, 0.9, 10.0, 2020.0], [-0.1, -0.4, 0.0, 2000.0]], vec![[500000.0, 6.1e6, 10.0, 2020.0], [3.0e5, -2.0e6, 50.0, 2010.0]], vec![[55.0, 12.0, 100.0, 2020.0], [-33.0, 151.0, 0.0, 2000.0]]] {
+            g.push(format!("S_INVMOD\t{}\t{}", crate::wire::escape(def), crate::wire::data_of(&pts)), "oracle-inv-modifier", true);
+        }
+    }
     // pipelines that rearrange their data through the stack: run backwards they put everything back (balanced
     // programs of push, pop, roll, unroll, swap, flip around value changing steps), also through a macro and with `inv`
     for def in [
